@@ -197,6 +197,19 @@ fn scripts() -> Vec<(&'static str, Vec<Unit>)> {
             ],
         ),
         (
+            // a foreground child of a shell without job control stops and is continued later: the
+            // command is not complete while it is merely stopped, so the following lines are neither
+            // read by the shell nor run before the child has consumed what it needs
+            "stopped-child-reads-the-following-line",
+            vec![
+                u(&["p a"], &["a:0"]),
+                rd(u(&["(stopself; read x; args \"$x\")", "S1"], &["args[S1]"])),
+                u(&["p b"], &["b:0"]),
+                rd(u(&["{ stopself; read y; args \"$y\"; } | cat", "S2"], &["args[S2]"])),
+                u(&["p c"], &["c:0"]),
+            ],
+        ),
+        (
             "exit-stops-reading",
             vec![
                 u(&["p a"], &["a:0"]),
@@ -306,6 +319,8 @@ fn setup_for(c: &Case, feed: Feed, chunks: Option<Vec<Vec<u8>>>) -> Setup {
     s.files.push(("/tmp/d1".into(), b"p one\n".to_vec(), 0o644));
     s.files.push(("/tmp/d2".into(), b"two\n".to_vec(), 0o644));
     s.cwd = Some("/".into());
+    // a child that stops itself is continued from outside once everything else is blocked
+    s.auto_continue = c.text.contains("stopself");
     s
 }
 
